@@ -663,6 +663,8 @@ def c17(tier):
     # the C wrapper defines *result on every exit (a caller re-using its variable must not see a stale grid)
     cw.cw8(P, C)
     ge.ge9(P, C)
+    # the sparse result holds each entry's value and whole index tuple in one slot
+    ge.ge10(P, C)
     # the operation is a function of its arguments and the table: no scratch kept between calls (two threads, two tables)
     selftest.run(P, C, ('re1',))
     dp.re1(P, C)
@@ -694,6 +696,8 @@ def c09(tier):
     st.st1(P, C, only=('fit',))
     # the mode products un-flatten the column number with the axis order they flattened it with (three and more dimensions)
     ge.ge9(P, C)
+    # the data handed to the fit holds each entry's value and whole index tuple in one slot
+    ge.ge10(P, C)
     return C.finish()
 
 
